@@ -332,8 +332,12 @@ func runC17(s *kernel.Sim, kind string) {
 // EchoSvc is the service behind the HTTP codec scenario.
 type EchoSvc struct{}
 
-func (EchoSvc) Echo(ctx context.Context, token string, blob string) (string, error) {
-	return "echo:" + token + ":" + fmt.Sprint(len(blob)), nil
+// Echo answers with the token, the length of the blob and the first back bytes of it (replies come in all sizes too).
+func (EchoSvc) Echo(ctx context.Context, token string, blob string, back int) (string, error) {
+	if back > len(blob) {
+		back = len(blob)
+	}
+	return "echo:" + token + ":" + fmt.Sprint(len(blob)) + ":" + blob[:back], nil
 }
 
 func runC17HTTP(s *kernel.Sim) {
@@ -348,6 +352,9 @@ func runC17HTTP(s *kernel.Sim) {
 	s.GoBG("httpserver", func() { srv.Serve(l) })
 	tr := &http.Transport{DialContext: func(ctx context.Context, network, addr string) (net.Conn, error) { return l.Dial("") }, DisableKeepAlives: s.Choose("keepalive", 2) == 0, MaxIdleConnsPerHost: 4}
 	svc := &jsonrpc2.HTTPService{Endpoint: "http://pool.sim/", HTTPClient: http.Client{Transport: tr}}
+	if s.Choose("maxlen", 2) == 1 {
+		svc.MaxContentLength = 1 << 20 // a limit far above every message of the run
+	}
 	s.SetYield("op", 3)
 	callers := 1 + s.Choose("callers", 3)
 	total := 0
@@ -355,10 +362,13 @@ func runC17HTTP(s *kernel.Sim) {
 		c := c
 		n := 1 + s.Choose("ncalls", 6)
 		total += n
-		type call struct{ token, blob string }
+		type call struct {
+			token, blob string
+			back        int
+		}
 		calls := make([]call, n)
 		for i := range calls {
-			calls[i] = call{fmt.Sprintf("c%d-%d ✓", c, i), strings.Repeat("z", []int{0, 3, 700, 70000}[s.Choose("blob", 4)])}
+			calls[i] = call{fmt.Sprintf("c%d-%d ✓", c, i), strings.Repeat("z", []int{0, 3, 700, 70000}[s.Choose("blob", 4)]), []int{0, 2, 3000, 70000}[s.Choose("back", 4)]}
 		}
 		name := fmt.Sprintf("caller%d", c)
 		s.Go(name, func() {
@@ -366,16 +376,19 @@ func runC17HTTP(s *kernel.Sim) {
 				s.Gate(name)
 				ctx, cancel := context.WithCancel(s.Ctx)
 				var got string
-				err := svc.Call(ctx, &got, "e_echo", cl.token, cl.blob)
+				err := svc.Call(ctx, &got, "e_echo", cl.token, cl.blob, cl.back)
 				cancel()
-				want := "echo:" + cl.token + ":" + fmt.Sprint(len(cl.blob))
+				want := "echo:" + cl.token + ":" + fmt.Sprint(len(cl.blob)) + ":" + cl.blob[:min(cl.back, len(cl.blob))]
 				if err != nil {
 					s.Violate("intact", "HTTP call fails however the bytes are chunked", "%s token %q: %v (chunk sizes %v)", name, cl.token, err, sizes)
 					return
 				}
 				if got != want {
-					s.Violate("intact", "HTTP call returns another call's or an altered reply", "%s: got %q want %q", name, got, want)
+					s.Violate("intact", "HTTP call returns another call's or an altered reply", "%s: got %.80q (%d bytes) want %.80q (%d bytes)", name, got, len(got), want, len(want))
 					return
+				}
+				if len(got) > 2048 {
+					s.Probe("c17.http_reply_larger_than_the_server_buffer")
 				}
 			}
 		})
